@@ -221,6 +221,18 @@ def build_catalogue(check, seed, size):
                 add({'op': 'dec', 'fn': 'field_table', 'b': data.hex()})
         elif check == 'C12':
             k = r.random()
+            if k < 0.22:
+                # objects the caller keeps and encodes again (marshal_slot,
+                # in-place edits): constructed and decoded frames
+                d = g.frame(marker, (('method', 2), ('header', 3)))
+                if r.random() < 0.6:
+                    add({'op': 'construct', 'frame': d})
+                else:
+                    data = _try_encode(d)
+                    if data is not None:
+                        add({'op': 'unmarshal', 'b': data.hex()})
+                continue
+            k = r.random()
             if k < 0.45:
                 v = g.table(1, r.choice([2, 3, 5, 8]))
                 if r.random() < 0.25:
@@ -259,8 +271,25 @@ def build_catalogue(check, seed, size):
             elif k < 0.55:
                 secs = max(0, min(2**32 - 1, r.choice(TRANSITIONS) +
                                   r.choice([-3600, -1, 0, 1, 3600])))
-                add({'op': 'dec', 'fn': 'timestamp',
-                     'b': secs.to_bytes(8, 'big').hex()})
+                raw = secs
+                form = r.random()
+                if form < 0.35:
+                    # a peer that sends milliseconds (decoder: > 2^32-1)
+                    raw = max(2**32, secs * 1000 + r.choice([0, 1, 500, 999]))
+                if form < 0.6 or raw == secs and form < 0.75:
+                    add({'op': 'dec', 'fn': 'timestamp',
+                         'b': raw.to_bytes(8, 'big').hex()})
+                elif form < 0.85:
+                    add({'op': 'dec', 'fn': 'field_table',
+                         'b': (b'\x00\x00\x00\x0b\x01tT' +
+                               raw.to_bytes(8, 'big')).hex()})
+                else:
+                    # content header carrying only the timestamp property
+                    payload = b'\x00\x3c\x00\x00' + (7).to_bytes(8, 'big') \
+                        + b'\x00\x40' + raw.to_bytes(8, 'big')
+                    fr = b'\x02\x00\x01' + len(payload).to_bytes(4, 'big') \
+                        + payload + b'\xce'
+                    add({'op': 'unmarshal', 'b': fr.hex()})
             elif k < 0.70:
                 v = {'when': ts_value(r), 'n': 1,
                      'list': [ts_value(r), 'x']}
@@ -370,6 +399,8 @@ def gen_trace(rng, check, population, tier, cat):
     for t in range(n):
         prog = []
         L = r.randint(4, 30) if not threaded else r.randint(3, 14)
+        if population == 'long':
+            L = r.randint(150, 400)
         for i in range(L):
             c = r.random()
             if toggles and c < (0.18 if check == 'C11' else 0.08):
@@ -392,7 +423,7 @@ def gen_trace(rng, check, population, tier, cat):
                          ['op'] in ('construct', 'unmarshal', 'dec')]
                 if cands:
                     ref = list(r.choice(cands))
-                    if check == 'C16' and r.random() < 0.45:
+                    if r.random() < (0.45 if check == 'C16' else 0.3):
                         prog.append({'op': 'mutate', 'ref': ref})
                     else:
                         prog.append({'op': 'marshal_slot', 'ref': ref})
